@@ -107,3 +107,18 @@ Proof.
   exists {| an_go_ok := false; an_ctor_ok := true |}, [{| an_go_ok := false; an_ctor_ok := true |}].
   split; [reflexivity|]. vm_compute. auto.
 Qed.
+
+(* the cached configuration, once set, is never replaced (single initialisation): prepare calls are
+   atomic under the mutex, so any interleaving of concurrent passes is one of these sequences *)
+Lemma cached_stable g f c : cached g = Some c -> cached (fst (run_pass g f)) = Some c.
+Proof.
+  intros H. unfold run_pass, prepare. destruct (latch g); simpl; [exact H|]. rewrite H. simpl. exact H.
+Qed.
+
+Lemma cached_stable_history h : forall g c, cached g = Some c -> latch g = false ->
+  run_passes run_pass g h = map (fun _ => if an_ctor_ok c then PassDiags else PassCtorError) h.
+Proof.
+  induction h as [|f r IH]; intros g c Hc Hl; [reflexivity|].
+  simpl. unfold run_pass at 1, prepare. rewrite Hl, Hc. simpl. f_equal.
+  apply IH; [exact Hc|exact Hl].
+Qed.
